@@ -158,6 +158,35 @@ def special_document(rng, kind):
 SPECIALS = ["no_inputs", "empty_body_schema", "string_header_only", "string_path_only", "string_path_plus_int_query", "additional_only_object", "optional_body_only", "string_cookies_only", "string_cookies_plus_int_query", "string_headers_plus_int_query"]
 
 
+def wire_level_validity(doc, version, location, declared_here, value):
+    """True: every declared parameter is present where required and its text form conforms under some typed reading,
+    nothing undeclared is sent; False: some violation survives; None: not judged (containers, unknown shapes)."""
+    from vmon.props.c03 import coerce_readings
+
+    if not isinstance(value, dict):
+        return None
+    for name in value:
+        if name not in declared_here:
+            return False
+    for name, (schema, required) in declared_here.items():
+        if name not in value:
+            if required:
+                return False
+            continue
+        raw = value[name]
+        if isinstance(raw, (dict, list)):
+            return None
+        if not isinstance(schema, dict) or "$ref" in json.dumps(schema):
+            return None
+        text = raw if isinstance(raw, str) else "true" if raw is True else "false" if raw is False else "null" if raw is None else str(raw)
+        if location == "path" and text == "":
+            return False
+        readings = coerce_readings(text)
+        if not any(oas_schema.is_valid(r, schema, doc=doc, version=version, mode="request") for r in readings):
+            return False
+    return True
+
+
 def probe_validity_filter(operation, declared, doc, version, emit, rng):
     """The negative strategy keeps a draw iff the product's own location schema rejects it. That schema is probed with
     strings which the DECLARED schema accepts: a probe it rejects would be sent labelled as negative although it
@@ -366,8 +395,14 @@ def run_shard(spec, emit):
                     if validator.is_valid(value):
                         viols.append((f"C02/part-labelled-negative-is-valid:{location}", f"{value!r:.120} declared={ {n: s for n, (s, _) in declared[location].items()} }"))
                     else:
-                        # the stricter, wire-level reading: would a server that coerces strings still see a violation?
+                        # the wire-level reading: these locations are text, so a value whose text form conforms (5 for a
+                        # parameter that may be a string) is not a violation any server could notice
                         emit.count("negative_parts_invalid_pre_coercion")
+                        verdict = wire_level_validity(doc, version, location, declared[location], value)
+                        if verdict is True:
+                            viols.append((f"C02/part-labelled-negative-conforms-as-text:{location}", f"{value!r:.120} declared={ {n: s for n, (s, _) in declared[location].items()} }"))
+                        elif verdict is False:
+                            emit.count("negative_parts_invalid_as_text")
                 else:
                     emit.count("positive_parts_judged")
                     for key, what in judge_positive_part(doc, version, location, declared[location], value, what="value"):
